@@ -141,6 +141,24 @@ def replay(lib, ob, cex):
         bad = [i for i in range(ob['m'] + 1) if bytes(nat['ks'][i]) != ks[i]]
         if bytes(nat['leaf']) != ks[0]: bad.append('leaf')
         if nat['nsteps'] != ob['m'] + 1: bad.append('nsteps=%d' % nat['nsteps'])
+        if not bad:
+            # the hashes agree, so the symbolic difference is in the final tweak verdict, which the solver sees through uninterpreted curve functions:
+            # probe the native build with a REAL commitment built from the counterexample's control block / script (internal key = the generator's x)
+            import hashlib, ctypes
+            def tagged(tag, data): t = hashlib.sha256(tag).digest(); return hashlib.sha256(t + t + bytes(data)).digest()
+            gx = bytes.fromhex('79be667ef9dcbbac55a06295ce870b07029bfcdb2dce28d959f2815b16f81798')
+            for i in range(32): V['c%d' % (1 + i)] = gx[i]
+            _, (ctrl2, _, scr2) = concrete_run(lib, ob, V)
+            root = bip341_concrete(ctrl2, [0] * 32, scr2, ob['m'])[-1]
+            out = (ctypes.c_ubyte * 33)()
+            if lib.w_real_tweak((ctypes.c_ubyte * 32)(*gx), (ctypes.c_ubyte * 32)(*tagged(b'TapTweak', gx + root)), out):
+                par, q = out[0], list(out[1:33]); probes = []
+                for name, cpar, qq, want in (('valid', par, q, 3), ('parity flipped', par ^ 1, q, 1), ('program bit flipped', par, [q[0] ^ 1] + q[1:], 1)):
+                    V2 = dict(V); V2['c0'] = (V.get('c0', 0xc0) & 0xfe) | cpar
+                    for i in range(32): V2['p%d' % i] = qq[i]
+                    n2, _ = concrete_run(lib, ob, V2)
+                    if n2['state'] != want: probes.append('%s commitment ends in state %d, BIP341 says %d' % (name, n2['state'], want))
+                if probes: return True, 'native TaprootCommitmentEnv on a real commitment (control block / script of the counterexample, internal key G): ' + '; '.join(probes)
         return bool(bad), 'native TaprootCommitmentEnv: mismatching BIP341 values at %s (state %s)' % (bad, nat['state'])
     okn = nat['steps'] and nat['steps'][-1][0] == 1
     m = ob['m']; pre = [[1, i + 1, 1] for i in range(m)]
